@@ -5,7 +5,7 @@ import z3
 from .values import (V, Int, Str, Bool, SeqV, SeqS, NONE, ABSENT, TRUE, FALSE, mk_bool, mk_int, mk_str,
                      mk_seq, mk_list, mk_tuple, truthy, clsof, keys_of, EMPTY_MAP, EMPTY_SEQ, pystr, py_eq)
 from .values import qforall
-from .state import (St, Unsupported, Static, SFunc, SClass, SBound, SModule, SExt, SConst, SIter, ExcVal)
+from .state import (St, Unsupported, Static, SFunc, SClass, SBound, SModule, SExt, SConst, SIter, ExcVal, SDict)
 
 
 def ok(st, v):
@@ -118,6 +118,9 @@ class ExprMixin:
             return self.resolve_dotted(mi.imports[name])
         if name in mi.globals:
             g = mi.globals[name]
+            st_ = self.stubs.statics.get('%s.%s' % (mi.short, name))
+            if st_ is not None:
+                return st_(self)
             if isinstance(g, ast.Constant):
                 return self.const(g.value)
             if isinstance(g, ast.Attribute) or isinstance(g, ast.Name):
@@ -424,6 +427,11 @@ class ExprMixin:
             e = z3.Or([self.eq_term(st, a, self.const(x) if not isinstance(x, Static) else x) for x in cont.value] or [False])
             return ok(st, mk_bool(z3.Not(e) if neg else e))
         fin = lambda e: mk_bool(z3.Not(e) if neg else e)
+        if isinstance(cont, SDict):
+            if isinstance(a, Static):
+                raise Unsupported('static key in registry')
+            alts = [a == (NONE if k is None else mk_str(k)) for k in cont.mapping]
+            return ok(st, fin(z3.Or(alts) if alts else z3.BoolVal(False)))
         if isinstance(cont, SIter) and getattr(cont, 'view', '') == 'keys_view' and not isinstance(a, Static):
             # x in d.keys()
             return ok(st, fin(z3.And(V.is_str(a), z3.Select(cont.map, V.s(a)) != ABSENT)))
@@ -645,6 +653,19 @@ class ExprMixin:
         return out
 
     def subscript(self, st, o, i):
+        if isinstance(o, SDict):
+            if isinstance(i, Static):
+                raise Unsupported('static index')
+            out = []
+            rest = st
+            for k, v in o.mapping.items():
+                x, rest = self.split(rest, i == (NONE if k is None else mk_str(k)))
+                if x is not None:
+                    out.append((x, 'ok', v))
+                if rest is None:
+                    return out
+            out.append((rest, 'exc', ExcVal('KeyError', [i])))
+            return out
         if isinstance(o, SConst):
             if isinstance(i, Static):
                 raise Unsupported('static index')
